@@ -2402,6 +2402,23 @@ fn run_obs(env: &Env, idx: &str, kind: &str, variant: &str, max: usize, observer
                 out.fails.push((format!("fleet.{k}.recover.next_call_did_not_reconnect"), ctx.clone()));
             }
         }
+        // the clauses of a call, and the rules about evidence that deviated from the script for
+        // reasons of scheduling (a request read after the client had given up, a late reply …)
+        if out.fails.is_empty() {
+            for (i, c) in calls.iter().enumerate() {
+                match check_call(kind, max, c, &format!("round {round}, call {}", i + 1), false) {
+                    Verdict::Fine => {}
+                    Verdict::Skip(r) => {
+                        out.skip = Some(r);
+                        return out;
+                    }
+                    Verdict::Fail(sig, d) => {
+                        out.fails.push((sig, format!("{d}; {ctx}")));
+                        break;
+                    }
+                }
+            }
+        }
         if !out.fails.is_empty() {
             deviation = Some((round, shown));
             break;
@@ -2746,7 +2763,7 @@ fn main() {
     out.extra.insert("sniffer".into(), serde_json::json!(env.sniffer.is_some()));
     out.extra.insert("node_timeout_ms".into(), serde_json::json!(T_NODE.as_millis() as u64));
     out.extra.insert("retry_delay_ms".into(), serde_json::json!(DELAY.as_millis() as u64));
-    out.rule = "case = fresh Fleet/AsyncFleet + one scripted node: calls until the script is consumed (at most 2*len+1), then a healthy phase of up to 3 calls; all behaviour sequences over the 7-letter alphabet up to length max+2 (quick: max 1 up to length 3, max 2 up to length 4, max 3 up to length 3 + 300 sampled sequences of length 4-5; thorough: max 1..3 up to length max+2, exhaustive) + sampled sequences up to length 6 for max_attempts 4, 5, 8, 64 (quick 150, thorough 600) + 12 cases through Fleet::new / AsyncFleet::new (default options), both fleets, call variants json/jsonnp/msg in rotation (thorough: all three for max 1,2); life = every sequence (length 1-3) of connect_all / disconnect_all / reconnect_disconnected / health_check / call against node scripts of length <= 2 without silent (quick: 8 sampled scripts each; thorough: all 43), then the healthy phase; bc / mr (map_reduce_json) = every assignment of tag subsets to up to 3 (thorough 4) nodes x every requested subset, each subset also reversed and with a repeat, one duplicated tag, a tag no node carries; every 7th with a refusing node, every 5th with a node that is silent on every attempt, every 11th with a node answering an application error; after the judged broadcast every node is healthy and the same fleet is used again through the twin entry point (after a panicking reducer in some mr cases) and, in about a fifth of the cases, after remove_node / add_node; opts = what the constructors must refuse (max_attempts 0, duplicate names at construction and at add_node). Two cases in three carry a word p= with drawn values of the parameters the property does not depend on (distribution: param.*). Distinct by op line; non-trivial = a call retried, hit a dead cached client, or returned an error / a broadcast that selects a proper non-empty subset or has a refusing node".into();
+    out.rule = "case = fresh Fleet/AsyncFleet + one scripted node: calls until the script is consumed (at most 2*len+1), then a healthy phase of up to 3 calls; all behaviour sequences over the 7-letter alphabet up to length max+2 (quick: max 1 up to length 3, max 2 up to length 4, max 3 up to length 3 + 300 sampled sequences of length 4-5; thorough: max 1..3 up to length max+2, exhaustive) + sampled sequences up to length 6 for max_attempts 4, 5, 8, 64 (quick 150, thorough 600) + 12 cases through Fleet::new / AsyncFleet::new (default options), both fleets, call variants json/jsonnp/msg in rotation (thorough: all three for max 1,2); life = every sequence (length 1-3) of connect_all / disconnect_all / reconnect_disconnected / health_check / call against node scripts of length <= 2 without silent (quick: 8 sampled scripts each; thorough: all 43), then the healthy phase; bc / mr (map_reduce_json) = every assignment of tag subsets to up to 3 (thorough 4) nodes x every requested subset, each subset also reversed and with a repeat, one duplicated tag, a tag no node carries; every 7th with a refusing node, every 5th with a node that is silent on every attempt, every 11th with a node answering an application error; after the judged broadcast every node is healthy and the same fleet is used again through the twin entry point (after a panicking reducer in some mr cases) and, in about a fifth of the cases, after remove_node / add_node; obs = 400 (thorough 800) rounds on one fleet of [the node drops one request, then is healthy] for max_attempts 1/2/3, both fleets, while 1-3 threads spin on the read-only entry points; one case in eight of the other families runs with 1-3 pausing observer threads (param.observers); a connection the node was silent on stays hung; opts = what the constructors must refuse (max_attempts 0, duplicate names at construction and at add_node). Two cases in three carry a word p= with drawn values of the parameters the property does not depend on (distribution: param.*). Distinct by op line; non-trivial = a call retried, hit a dead cached client, or returned an error / a broadcast that selects a proper non-empty subset or has a refusing node".into();
     let mut ops: Vec<String> = match args.replay_ops() {
         Some(ops) => ops,
         None => gen_cases(&mut rng, args.thorough()),
